@@ -142,7 +142,7 @@ pub fn gen_response(t: &mut Tape, method: &Method, status: u16, allow_close: boo
             if ok {
                 break c;
             }
-            if t.mode() == crate::infra::tape::Mode::Scaled && t.overrun() > 0 {
+            if t.mode() != crate::infra::tape::Mode::Direct && t.overrun() > 0 {
                 break 0;
             }
         };
